@@ -198,8 +198,12 @@ def _idx_kind(eng, st, sl):
         if m.esort == BOOL:
             return ('mask2', m)
         raise OutOfSubset('2-D integer index array')
+    if isinstance(v, Opaque) and v.kind == 'trilidx':
+        return ('trilidx', v)
     if isinstance(v, TupleV) and len(v) == 2 and all(isinstance(t, Ref) for t in v):
         return ('pair', as_row(eng, st, v[0]), as_row(eng, st, v[1]), v)
+    if isinstance(v, TupleV) and len(v) == 2 and all(isinstance(t, (Ref, Row)) for t in v):
+        return ('pairrows', as_row(eng, st, v[0]), as_row(eng, st, v[1]))
     if isinstance(v, (Ref, Row)) or (isinstance(v, (tuple, list)) and not isinstance(v, Opaque)):
         if isinstance(v, (tuple, list)):
             return ('fancy', as_row(eng, st, v))
@@ -352,6 +356,19 @@ def setitem(eng, st, base, sl, val, node):
         x, y = z3.Int('x!s'), z3.Int('y!s')
         old = o.term
         inb = z3.And(x >= 0, x < to_z3(o.shape[0], INT), y >= 0, y < to_z3(o.shape[1], INT))
+        if kind[0] == 'trilidx':
+            v = to_z3(val, o.esort)
+            kk = to_z3(kind[1].k, INT)
+            o.term = define2(st, o.esort, lambda x, y: z3.If(z3.And(x >= 0, x < to_z3(o.shape[0], INT), y >= 0, y < to_z3(o.shape[1], INT), y - x <= kk), v, z3.Select(z3.Select(old, x), y)))
+            return
+        if kind[0] == 'pairrows':
+            # W[(rowsA, rowsB)] = scalar with computed index rows: every cell (rowsA[t], rowsB[t]), t < len, is overwritten
+            f0, f1 = kind[1], kind[2]
+            v = to_z3(val, o.esort)
+            t = z3.Int('t!sc')
+            hitc = lambda x, y: z3.Exists([t], z3.And(t >= 0, t < to_z3(f0.n, INT), to_z3(f0.fn(t), INT) == x, to_z3(f1.fn(t), INT) == y))
+            o.term = define2(st, o.esort, lambda x, y: z3.If(hitc(x, y), v, z3.Select(z3.Select(old, x), y)))
+            return
         if kind[0] == 'mask2':
             mk = kind[1]
             if isinstance(val, (Ref, Row, Mat)):
@@ -387,6 +404,10 @@ def setitem(eng, st, base, sl, val, node):
         bounds(eng, st, k0[1], o.shape[0], 'store0:%s' % ast.unparse(node)[:24])
         bounds(eng, st, k1[1], o.shape[1], 'store1:%s' % ast.unparse(node)[:24])
         o.term = store2(old, k0[1], k1[1], to_z3(val, o.esort))
+        return
+    if k0[0] == 'all' and k1[0] == 'all' and isinstance(val, (Ref, Mat)):
+        mv = as_mat(eng, st, val)
+        o.term = define2(st, o.esort, lambda x, y: z3.If(z3.And(x >= 0, x < to_z3(o.shape[0], INT), y >= 0, y < to_z3(o.shape[1], INT)), to_z3(mv.fn(x, y), o.esort), z3.Select(z3.Select(old, x), y)))
         return
     if k0[0] == 'int' and k1[0] == 'all':
         bounds(eng, st, k0[1], o.shape[0], 'storerow:%s' % ast.unparse(node)[:24])
@@ -428,6 +449,14 @@ def setitem(eng, st, base, sl, val, node):
             return z3.Exists([t], z3.And(t >= 0, t < to_z3(sel.n, INT), to_z3(sel.fn(t), INT) == ix))
         inb = z3.And(x >= 0, x < to_z3(o.shape[0], INT), y >= 0, y < to_z3(o.shape[1], INT))
         o.term = define2(st, o.esort, lambda x, y: z3.If(z3.And(x >= 0, x < to_z3(o.shape[0], INT), y >= 0, y < to_z3(o.shape[1], INT), hit(x if rowsel else y)), v, z3.Select(z3.Select(old, x), y)))
+        return
+    if k0[0] == 'fancy' and k1[0] == 'fancy' and not isinstance(val, (Ref, Row, Mat)):
+        # W[rowsA, rowsB] = scalar: numpy pairs the two index arrays element by element
+        f0, f1 = k0[1], k1[1]
+        v = to_z3(val, o.esort)
+        t = z3.Int('t!sc')
+        o.term = define2(st, o.esort, lambda xx, yy: z3.If(z3.Exists([t], z3.And(t >= 0, t < to_z3(f0.n, INT), to_z3(f0.fn(t), INT) == xx, to_z3(f1.fn(t), INT) == yy)), v,
+                                                          z3.Select(z3.Select(old, xx), yy)))
         return
     raise OutOfSubset('2-D store kinds %s,%s' % (k0[0], k1[0]))
 
@@ -704,7 +733,17 @@ def np_argsort(eng, st, args, kw, node):
         o = st.heap[v.oid]
         r = alloc(st, 1, inv, o.shape, INT, {'perm_inv': o.term, 'pure_of': ('argsort', v.oid, str(o.term.hash()))})
         return r
-    raise OutOfSubset('np.argsort of a value not known to be a permutation')
+    r = as_row(eng, st, v)
+    k = to_z3(r.n, INT)
+    sg, sinv = fresh('argsort', A1I), fresh('argsortinv', A1I)
+    a, b = z3.Ints('a!as b!as')
+    st.pc.append(z3.ForAll([a], z3.Implies(z3.And(a >= 0, a < k), z3.And(z3.Select(sg, a) >= 0, z3.Select(sg, a) < k, z3.Select(sinv, z3.Select(sg, a)) == a)), patterns=[z3.Select(sg, a)]))
+    st.pc.append(z3.ForAll([a], z3.Implies(z3.And(a >= 0, a < k), z3.And(z3.Select(sinv, a) >= 0, z3.Select(sinv, a) < k, z3.Select(sg, z3.Select(sinv, a)) == a)), patterns=[z3.Select(sinv, a)]))
+    st.pc.append(z3.ForAll([a, b], z3.Implies(z3.And(a >= 0, a <= b, b < k), to_z3(r.fn(z3.Select(sg, a))) <= to_z3(r.fn(z3.Select(sg, b)))),
+                           patterns=[z3.MultiPattern(z3.Select(sg, a), z3.Select(sg, b))]))
+    st.pc += [isperm(sg, k), isperm(sinv, k)]
+    st.ghost['argsort_inverse_last'] = sinv
+    return alloc(st, 1, sg, (r.n,), INT, {'perm_inv': sinv})
 
 
 def np_sum(eng, st, args, kw, node):
@@ -799,6 +838,10 @@ def np_mod(eng, st, args, kw, node):
     if isinstance(a, (Ref, Row, Mat)):
         return elementwise2(eng, st, lambda x, y: to_z3(x, INT) % to_z3(y, INT), a, b, esort=INT)
     return to_z3(a, INT) % to_z3(b, INT)
+
+
+def np_tril_indices(eng, st, args, kw, node):
+    return Opaque('trilidx', n=args[0], k=(args[1] if len(args) > 1 else 0))
 
 
 def np_trace(eng, st, args, kw, node):
